@@ -35,7 +35,7 @@ def _mk_style(e, p):
         kw[ATTRS[i]] = True
     fg = COLORS[int(e.mk(p + "fg", 0, len(COLORS) - 1))]
     bg = COLORS[int(e.mk(p + "bg", 0, len(COLORS) - 1))]
-    link = "http://x/y" if e.mkbool(p + "link") else None
+    link = [None, "http://x/y", "https://e.org/app;jsessionid=1A2B?x=1&y=2"][int(e.mk(p + "link", 0, 2))]
     return Style(color=fg, bgcolor=bg, link=link, **kw)
 
 
@@ -64,7 +64,7 @@ def _roundtrip_ok(segs) -> bool:
 
 @symx("C19-roundtrip-one-style", timeout=1500, kind="P", functions=F_D,
       bounds="text 'a' + 'b' + 'c' where 'a' and 'c' carry a style with at most one attribute on x fg and bg from 7 representatives "
-             "(unset, default, standard, bright, 8-bit, truecolor, grey) x link, 'b' unstyled; printed by a truecolor terminal console "
+             "(unset, default, standard, bright, 8-bit, truecolor, grey) x link (none, plain, with ';' '?' '&' '='), 'b' unstyled; printed by a truecolor terminal console "
              "and decoded: same characters, per character the same on-attributes, colours (type, number, triplet) and link")
 def c19_rt1(e):
     st = _mk_style(e, "s")
@@ -181,3 +181,36 @@ def _mk_proxy(ntok, tiers, timeout):
 
 _mk_proxy(3, ("quick", "thorough"), 900)
 _mk_proxy(4, ("thorough",), 3400)
+
+
+# --- every single SGR parameter 0..255, symbolic decimal text (S, xh) ---------------------------------------------------
+def _pre_code(code: int) -> bool:
+    return 0 <= code <= 255
+
+
+@xh("C19-decode-sgr-parameter", pre=_pre_code, timeout=900, kind="S", functions=F_D, stubs=["S2"],
+    bounds="decode_line('ESC[1;<code>mx') for every code in 0..255 (decimal text symbolic), starting from bold: the decoded style is "
+           "what the independent terminal model says that parameter does (attribute on/off, 16 fg / 16 bg colours, defaults, reset, "
+           "ignored otherwise)")
+def c19_code(code: int) -> bool:
+    seq = "\x1b[1;" + str(code) + "mx"
+    line = AnsiDecoder().decode_line(seq)
+    if line.plain != "x":
+        return False
+    got = line.spans[0].style if line.spans else Style()
+    c = Console(file=io.StringIO(), width=20, _environ={})
+    got_key = _style_key(got if isinstance(got, Style) else c.get_style(got))
+    from crosshair.core import realize
+    from crosshair.tracers import NoTracing
+    k = realize(code)
+    with NoTracing():
+        want = termmodel.sgr_decode("\x1b[1;%dmx" % k).cells[0]
+    _, attrs, fg, bg, _link = want
+
+    def conv(col):
+        if col is None:
+            return None
+        if col == ("default",):
+            return _col_key(Color.default())
+        return _col_key(Color.from_ansi(col[1]))
+    return got_key == (frozenset(attrs), conv(fg), conv(bg), None)
